@@ -132,11 +132,9 @@ func C14_atomic() {
 	root := c14Root()
 	before := c14Observe(root)
 	// the failing document
-	failure := sym.Choice("failure", len(c14FailParts))
-	fail := c14FailParts[failure]
+	fail := c14FailParts[sym.Choice("failure", len(c14FailParts))]
 	failFirst := sym.Choice("failing part first", 2) == 1
 	doc := ""
-	extendsBefore, extendsAny := false, false
 	// quick: no valid part, one of them, or all; thorough: every subset (S booleans)
 	which := -2
 	if !sym.Thorough() {
@@ -149,10 +147,6 @@ func C14_atomic() {
 		}
 		if include {
 			doc += p + "\n"
-			if c14Extends(p) {
-				extendsAny = true
-				extendsBefore = !failFirst
-			}
 		}
 	}
 	if failFirst {
@@ -164,21 +158,6 @@ func C14_atomic() {
 	sym.Budget(40_000_000)
 	err := root.ParseString(doc)
 	sym.Assert(err != nil, "the failing document is refused")
-	// The loader applies extend blocks in place to the existing type objects
-	// after the whole document has been scanned and its new types added:
-	// failures 0-2 (syntax, undefined reference, duplicate type) stop before
-	// that; 3, 4, 8 fail while extensions are applied in document order; 5-7
-	// fail in validation, after all of them were applied.
-	applied := false
-	switch failure {
-	case 3, 4, 8:
-		applied = extendsBefore
-	case 5, 6, 7:
-		applied = extendsAny
-	}
-	if sym.Known("C14-extension-survives-failed-load", applied) {
-		return
-	}
 	after := c14Observe(root)
 	c14AssertUnchanged(before, after)
 	// a later valid load behaves as on a root that never saw the failing document
@@ -188,17 +167,6 @@ func C14_atomic() {
 		panic("harness: later document refused by a fresh root")
 	}
 	c14AssertLater(c14Observe(fresh), c14Observe(root))
-}
-
-// c14Extends reports whether the document extends an existing type before
-// it fails (the region of the recorded finding).
-func c14Extends(doc string) bool {
-	for i := 0; i+7 <= len(doc); i++ {
-		if doc[i:i+7] == "extend " {
-			return true
-		}
-	}
-	return false
 }
 
 // C14_fault: the reader fails at an S-chosen offset of a valid document.
